@@ -4,6 +4,8 @@
 #ifndef DRIVER_MAIN_H
 #define DRIVER_MAIN_H
 #include "hutil.h"
+/* optional: a leading token "@Name" selects a context (e.g. the current type) for this line only-and-after */
+__attribute__((weak)) int driver_select(const char *name);
 int main(void) {
     char *line = NULL;
     size_t cap = 0;
@@ -11,15 +13,20 @@ int main(void) {
     static char obuf[1 << 16];
     setvbuf(stdout, obuf, _IOFBF, sizeof(obuf));
     while((n = getline(&line, &cap, stdin)) > 0) {
-        char *argv[256];
+        static char *argv[1 << 16];
         int argc = 0;
         char *save = 0;
-        for(char *t = strtok_r(line, " \r\n", &save); t && argc < 256; t = strtok_r(0, " \r\n", &save))
+        for(char *t = strtok_r(line, " \r\n", &save); t && argc < (1 << 16); t = strtok_r(0, " \r\n", &save))
             argv[argc++] = t;
         int handled = 0;
+        char **av = argv;
+        if(argc > 0 && av[0][0] == '@' && driver_select) {
+            if(!driver_select(av[0] + 1)) { fputs("no-such-type\n", stdout); fflush(stdout); continue; }
+            av++; argc--;
+        }
         if(argc > 0) {
             for(int i = 0; handlers[i]; i++) {
-                if(handlers[i](argc, argv, stdout)) { handled = 1; break; }
+                if(handlers[i](argc, av, stdout)) { handled = 1; break; }
             }
         }
         if(!handled) fputs("bad-op", stdout);
